@@ -16,7 +16,7 @@ EXTRA = {
  "X09": dict(
   title="every call of the network / solver interface returns the error class, the boolean and leaves the per-node state the protocol says, on networks of any topology; species and organism helpers do what their names say",
   text="spec/ActProtocol.tla extends Solvers.tla (same network record, same standard / fast solver state). Standard network: LoadSensors with ANY number of values as the two walks of the code next to a per-node definition (exact length: every sensor incl. bias takes its value; otherwise input neurons take values in order, bias nodes 1.0; too few values: run-time panic after a partial load; surplus silently ignored) and the statement of what it should mean (only the input vector, or input + bias values; anything else an error that loads nothing); NNode.SensorLoad on any node; ActivateSteps / Activate as the loop of the code keeping the TRACE of states after every pass (per node: activation, activations count, lastActivation, lastActivation2, isActive), ForwardSteps, RecursiveSteps (= ForwardSteps(depth), depth may be 0), Relax (not implemented), Flush + FlushbackCheck. Laws checked by TLC after every call: the error class is exactly zero / exceeded / nil and the boolean is (err = nil); a zero / not-implemented error leaves the state untouched; success means every output has been activated at least once, after at least one pass, and the loop stopped at the first pass where that held; failure means exactly maxSteps passes were made; with at least as many attempts as neurons (Activate: 20) the call succeeds IFF every output that is still off is reachable, through links that are not time-delayed, from ANY sensor (loaded or not) or from an already active neuron (Reach, a graph definition); per pass: flags only rise, only reachable neurons become active, every active neuron is activated exactly once from the values BEFORE the pass, GetActiveOutTd after the pass is GetActiveOut before it, sensors untouched; active <=> count > 0 for neurons; agreement with StdActivateSteps / StdForwardSteps / StdLoad of Solvers.tla. Fast solver: LoadSensors of a wrong length (size error, nothing loaded), ForwardSteps(k <= 0) (FALSE, no error), RecursiveSteps on cyclic networks, Relax(maxSteps, delta) with the returned flag and the number of steps (state = ForwardSteps(j); delta <= 0: one step, TRUE; delta > 0: j = first step that moved no neuron by more than delta, else maxSteps and FALSE; maxSteps <= 0: FALSE), Flush; frame: only LoadSensors / Flush write sensor signals, bias signals stay 1. Static: NodeCount / LinkCount / Complexity of both (fast LinkCount = connections + neurons with a non-zero FOLDED bias), Incoming / Outgoing lists as built by ConnectFrom resp. AddIncoming + AddOutgoing, Network.IsRecurrent as the counted depth-first search next to reachability along links not marked recurrent (never a false alarm; exact unless the visit budget ran out). Second half: Species.addOrganism / removeOrganism (error unless exactly one entry went; order of the others kept) / firstOrganism / findChampion (maximal under Organisms.Less, first afterwards, a permutation; ties in either order) / lastImproved / Size, and Organism.Phenotype (cached until UpdatePhenotype whatever happens to the genome) / UpdatePhenotype (always a new network expressing the genome as it is now; a genome without genes is an error and drops the cache) / NewOrganism (takes over the genome's phenotype) / CheckChampionChildDamaged as state machines. The replayer builds every network three ways (ConnectFrom, AddIncoming + AddOutgoing, genome + Genesis where a genome can say it), runs the call sequence and compares after EVERY call: error class, boolean, ReadOutputs, OutputIsOff and per node ActivationsCount, Activation, GetActiveOut, GetActiveOutTd, isActive, lastActivation2, FlushbackCheck (standard network) resp. all neuron signals and the pre-accumulation array (fast solver).",
-  note="Exhaustive within (BFS; every simple digraph of the shape incl. the empty one, self-loops, cycles, isolated and unreachable outputs; weights dealt 1, 2, -1 (, 0) by link position; integer-closed activations, the unbounded ones only on acyclic networks): quick - {input, hidden, output}: up to 4 links x 2 (allNodes order, activation scheme) x every sequence of 2 calls over 9 standard / 8 fast-solver calls; up to 2 links x every sequence of 3 calls; the same shape with time-delayed links up to 3 links x 2 calls; {input, bias, 2 outputs} with time-delayed links up to 2 links x 2 calls over the edge alphabet (LoadSensors with the bias value / 2 surplus values / a second vector, ActivateSteps(-1), ForwardSteps(0 / 2 / -1), Network.Relax, SensorLoad on a sensor and on a neuron; fast: short load, ForwardSteps(-1 / 2), Relax(0, .), Relax(3, 0.5), Relax(3, 2), Relax(2, -1)); static cases for all three recurrence markings x both construction methods; species: 3 organisms x 2 key assignments (ties) x every sequence of 4 of {add i, remove i, findChampion}; organism: 3-gene genome x 2 enable patterns x with / without a phenotype on the genome x every sequence of 4 of {Phenotype, UpdatePhenotype, toggle gene 1 / 3, empty the gene list}; CheckChampionChildDamaged on 18 combinations. Thorough: all 63 link sets of {input, hidden, output} x 5 variants x sequences of 3 over the full alphabets, time-delayed links up to 4 links, {input, bias, hidden, output}, {input, 2 hidden, output}, {2 bias, output}, {2 inputs, 2 outputs}, sequences of 4 calls on up to 2 links, species / organism sequences of 5. Values are integers (dyadic): comparison is ==. Species.removeOrganism / firstOrganism / lastImproved have no export shim: the replayer binds the library's own functions at link time (go:linkname); harness/shim_x09.go.txt is the shim that would replace that. OBSERVATIONS (recorded in coverage.actprotocol.observations, never a violation): (1) Network.LoadSensors never returns an error: with fewer values than input neurons it PANICS (index out of range, network.go LoadSensors, default branch `node.SensorLoad(sensors[counter])`) after having loaded the sensors before the missing value; with more values than input neurons (and not exactly len(inputs)) it silently ignores the surplus - ErrNetUnsupportedSensorsArraySize is only ever returned by the fast solver; MC_ActProtocol_should.cfg states what it should do as an invariant that is EXPECTED to fail on the as-coded model. A library that rejects such vectors with an error and loads nothing is accepted by the replayer. (2) The two Solver implementations disagree on the vector with bias values: the network accepts len(inputs) values (the bias takes the given value), the fast solver rejects it. (3) ForwardSteps(0): the network answers ErrZeroActivationStepsRequested, the fast solver (false, nil); negative step counts: (false, nil) on both ForwardSteps, ErrNetExceededMaxActivationAttempts on ActivateSteps. (4) fast Relax(maxSteps, delta <= 0) performs ONE step whatever maxSteps; Relax(0, .) is (false, nil). (5) Network.RecursiveSteps fails with the zero-steps error on a network with a hidden node whose outputs have no incoming link (depth 0). (6) Activate succeeds on a network whose sensors were never loaded (sensors count as sources of activity whether loaded or not; an output fed only through an earlier neuron of allNodes becomes active in the same pass and reads zeros). (7) fast LinkCount differs from the network's when a neuron has several bias links or a bias weight of 0. (8) Network.IsRecurrent answers false for a link that would close a loop when its visit budget runs out on a cycle of links not marked recurrent. (9) findChampion panics on a species without organisms; Organism.Phenotype hands out the cached network after the genome changed until UpdatePhenotype is called; after a failed UpdatePhenotype Genome.Phenotype still points to the old network. Not covered: modular networks, parallel links, NaN / infinite values, concurrent use. Trusted: TLC, the replayer's construction of networks / organisms.",
+  note="Exhaustive within (BFS; every simple digraph of the shape incl. the empty one, self-loops, cycles, isolated and unreachable outputs; weights dealt 1, 2, -1 (, 0) by link position; integer-closed activations, the unbounded ones only on acyclic networks): quick - {input, hidden, output}: up to 4 links x 2 (allNodes order, activation scheme) x every sequence of 2 calls over 9 standard / 8 fast-solver calls; up to 2 links x every sequence of 3 calls over 7 / 6 calls; the same shape with time-delayed links up to 3 links x 2 calls; {input, bias, 2 outputs} and {2 bias, output} with time-delayed links up to 2 links x 2 calls over the edge alphabet (LoadSensors with the bias value / 2 surplus values / a second vector, ActivateSteps(-1), ForwardSteps(0 / 2 / -1), Network.Relax, SensorLoad on a sensor and on a neuron; fast: short load, ForwardSteps(-1 / 2), Relax(0, .), Relax(3, 0.5), Relax(3, 2), Relax(2, -1)); static cases for all three recurrence markings x both construction methods; species: 3 organisms x 2 key assignments (ties) x every sequence of 4 of {add i, remove i, findChampion}; organism: 3-gene genome x 2 enable patterns x with / without a phenotype on the genome x every sequence of 4 of {Phenotype, UpdatePhenotype, toggle gene 1 / 3, empty the gene list}; CheckChampionChildDamaged on 18 combinations. Thorough: all 63 link sets of {input, hidden, output} x 5 variants x sequences of 3 over the full alphabets, time-delayed links up to 4 links, {input, bias, hidden, output}, {input, 2 hidden, output}, {2 bias, output}, {2 inputs, 2 outputs}, sequences of 4 calls on up to 2 links, species / organism sequences of 5 (about 1.46 million states, 1.29 million behaviours). Values are integers (dyadic): comparison is ==. Species.removeOrganism / firstOrganism / lastImproved have no export shim: the replayer binds the library's own functions at link time (go:linkname); harness/shim_x09.go.txt is the shim that would replace that. OBSERVATIONS (recorded in coverage.actprotocol.observations, never a violation): (1) Network.LoadSensors never returns an error: with fewer values than input neurons it PANICS (index out of range, network.go LoadSensors, default branch `node.SensorLoad(sensors[counter])`) after having loaded the sensors before the missing value; with more values than input neurons (and not exactly len(inputs)) it silently ignores the surplus - ErrNetUnsupportedSensorsArraySize is only ever returned by the fast solver; MC_ActProtocol_should.cfg states what it should do as an invariant that is EXPECTED to fail on the as-coded model. A library that rejects such vectors with an error and loads nothing is accepted by the replayer. (2) The two Solver implementations disagree on the vector with bias values: the network accepts len(inputs) values (the bias takes the given value), the fast solver rejects it. (3) ForwardSteps(0): the network answers ErrZeroActivationStepsRequested, the fast solver (false, nil); negative step counts: (false, nil) on both ForwardSteps, ErrNetExceededMaxActivationAttempts on ActivateSteps. (4) fast Relax(maxSteps, delta <= 0) performs ONE step whatever maxSteps; Relax(0, .) is (false, nil). (5) Network.RecursiveSteps fails with the zero-steps error on a network with a hidden node whose outputs have no incoming link (depth 0). (6) Activate succeeds on a network whose sensors were never loaded (sensors count as sources of activity whether loaded or not; an output fed only through an earlier neuron of allNodes becomes active in the same pass and reads zeros). (7) fast LinkCount differs from the network's when a neuron has several bias links or a bias weight of 0. (8) Network.IsRecurrent answers false for a link that would close a loop when its visit budget runs out on a cycle of links not marked recurrent. (9) findChampion panics on a species without organisms; Organism.Phenotype hands out the cached network after the genome changed until UpdatePhenotype is called; after a failed UpdatePhenotype Genome.Phenotype still points to the old network. Not covered: modular networks, parallel links, NaN / infinite values, concurrent use. Trusted: TLC, the replayer's construction of networks / organisms.",
   technique=B2),
 }
 
